@@ -55,38 +55,71 @@ func ruleCommaOk(c *Ctx) {
 				continue
 			}
 			n++
-			// walk forward; stop at a node that reads ok, or re-defines v
+			// walk forward. A branch on ok splits the walk: the hit edge ends it, the
+			// miss edge is followed (the value must not be used there either); any
+			// other read of ok (ok passed on, combined into a larger condition) ends it.
 			var use *Node
-			seen := map[*Node]bool{}
-			var work []*Node
+			type witem struct {
+				n      *Node
+				vv, kv *types.Var
+			}
+			type wkey struct {
+				n  *Node
+				vv *types.Var
+			}
+			seen := map[wkey]bool{}
+			var work []witem
 			for _, e := range m.Succs {
-				work = append(work, e.To)
+				work = append(work, witem{e.To, vv, kv})
 			}
 			for len(work) > 0 && use == nil {
-				x := work[len(work)-1]
+				it := work[len(work)-1]
 				work = work[:len(work)-1]
-				if seen[x] || x == m {
+				x := it.n
+				if seen[wkey{x, it.vv}] || x == m {
 					continue
 				}
-				seen[x] = true
+				seen[wkey{x, it.vv}] = true
+				cv, ck := it.vv, it.kv
 				if x.Ast != nil {
-					defs, uses := nodeDefsUses(info, x.Ast)
-					if uses[kv] {
-						continue // ok is consulted here
+					// `v2, ok2 = v, ok`: the pair is handed on together (the shape an
+					// inlined lookup helper leaves behind): follow the copies
+					if cp, isAs := x.Ast.(*ast.AssignStmt); isAs && len(cp.Lhs) == len(cp.Rhs) && len(cp.Lhs) >= 2 {
+						var nv, nk *types.Var
+						for i, r := range cp.Rhs {
+							if identObj(info, r) == cv {
+								nv, _ = identObj(info, cp.Lhs[i]).(*types.Var)
+							}
+							if identObj(info, r) == ck {
+								nk, _ = identObj(info, cp.Lhs[i]).(*types.Var)
+							}
+						}
+						if nv != nil && nk != nil {
+							for _, e := range x.Succs {
+								work = append(work, witem{e.To, nv, nk})
+							}
+							continue
+						}
 					}
-					if uses[vv] {
+					defs, uses := nodeDefsUses(info, x.Ast)
+					if uses[cv] {
 						use = x
 						break
 					}
-					if _, re := defs[vv]; re {
+					if _, re := defs[cv]; re {
 						continue
 					}
-					if _, re := defs[kv]; re {
-						// ok overwritten before anybody looked at it: keep following v
+					if uses[ck] {
+						for _, e := range x.Succs {
+							if at, isAt := edgeAtom(info, e); isAt && at.Kind == "bool" && identObj(info, at.X) == ck && !at.True {
+								work = append(work, witem{e.To, cv, ck})
+							}
+						}
+						continue
 					}
 				}
 				for _, e := range x.Succs {
-					work = append(work, e.To)
+					work = append(work, witem{e.To, cv, ck})
 				}
 			}
 			construct := fmt.Sprintf("%s `%s` tested before its value is used", kind, exprStr(as.Rhs[0]))
@@ -962,3 +995,228 @@ func ruleDialAddrResolved(c *Ctx) {
 		c.R.Hold("R-ADDR", p.Pos(useN.Ast), f.Name, "the brokered dial uses a resolved address", "no feasible path reaches netAddrDialer(addr) without an assignment to addr", true)
 	}
 }
+
+// ---------- polarity clauses (operator sweep): the guarded action sits on the right edge ----------
+
+// rulePolarity collects small "the action is reached on the intended edge of
+// its guard" checks. A flipped comparison leaves every structure the other
+// rules look at in place; what changes is the edge.
+func rulePolarity(c *Ctx, which string) {
+	p := c.P
+	switch which {
+	case "socketdir":
+		// Kill: RemoveAll(dir) is not behind `dir == ""`
+		f := p.Fn("Client.Kill")
+		if f == nil {
+			return
+		}
+		for _, lf := range p.Funcs {
+			root := lf
+			for root.Parent != nil {
+				root = root.Parent
+			}
+			if root != f {
+				continue
+			}
+			info := lf.Pkg.TypesInfo
+			g := p.Graph(lf)
+			for _, call := range lf.Calls() {
+				if p.CalleeName(lf, call) != "os.RemoveAll" || len(call.Args) != 1 {
+					continue
+				}
+				dv := identObj(info, call.Args[0])
+				node := g.NodeOf(call)
+				if dv == nil || node == nil {
+					continue
+				}
+				wrong := g.OnlyViaEdge(node, func(e *Edge) bool {
+					at, ok := edgeAtom(info, e)
+					if !ok || at.Kind != "cmp" || at.Op != token.EQL || identObj(info, at.X) != dv {
+						return false
+					}
+					s, isS := constString(info, at.Y)
+					return isS && s == ""
+				})
+				construct := "socket directory removed when one was created"
+				if wrong {
+					c.R.Violate("R-RES/socketdir", p.Pos(call), lf.Name, construct, "os.RemoveAll is reachable only when the recorded socket directory is the empty string: the directory created for a custom runner is never removed", nil)
+				} else {
+					c.R.Hold("R-RES/socketdir", p.Pos(call), lf.Name, construct, "the removal is not confined to the empty-name edge", true)
+				}
+			}
+		}
+	case "hostenv":
+		// hostEnv: on the true edge of each NAME= prefix test the entry is not appended
+		f := p.Fn("hostEnv")
+		if f == nil {
+			return
+		}
+		info := f.Pkg.TypesInfo
+		g := p.Graph(f)
+		var appendN []*Node
+		for _, m := range g.Nodes {
+			if m.Ast == nil {
+				continue
+			}
+			for _, call := range callsIn(m.Ast) {
+				if p.CalleeName(f, call) == "builtin.append" {
+					appendN = append(appendN, m)
+				}
+			}
+		}
+		n, leak := 0, ""
+		for _, m := range g.Nodes {
+			for _, e := range m.Succs {
+				at, ok := edgeAtom(info, e)
+				if !ok || at.Kind != "call" || !at.True {
+					continue
+				}
+				call, isC := at.X.(*ast.CallExpr)
+				if !isC || p.CalleeName(f, call) != "strings.HasPrefix" || len(call.Args) != 2 {
+					continue
+				}
+				pre, isK := constString(info, call.Args[1])
+				if !isK {
+					continue
+				}
+				n++
+				// the next evaluation of this very test marks the next iteration
+				mm := m
+				seen := p.FeasibleReach(f, []*Node{e.To}, func(x *Node) bool { return x == mm }, nil)
+				for _, an := range appendN {
+					if seen[an] {
+						leak = strings.TrimSuffix(pre, "=")
+					}
+				}
+			}
+		}
+		construct := "a matching entry is dropped, not kept"
+		switch {
+		case n == 0:
+			c.R.Hold("R-TABLE/env", p.Pos(f.Node()), f.Name, construct, "the filter is not written with constant prefixes on edges (checked by the table clause)", false)
+		case leak != "":
+			c.R.Violate("R-TABLE/env", p.Pos(f.Node()), f.Name, construct, "on the edge on which an inherited entry was recognised as "+leak+"=... the entry can still be appended to the environment handed to the plugin (the tests are combined with && instead of ||, or the skip was lost): the host's own value reaches the plugin", nil)
+		default:
+			c.R.Hold("R-TABLE/env", p.Pos(f.Node()), f.Name, construct, "from the true edge of each prefix test the append is unreachable within the iteration", true)
+		}
+	case "envversions":
+		// protocolVersion: the offered list is parsed when the variable is non-empty
+		f := p.Fn("protocolVersion")
+		if f == nil {
+			return
+		}
+		info := f.Pkg.TypesInfo
+		g := p.Graph(f)
+		for _, call := range f.Calls() {
+			nm := p.CalleeName(f, call)
+			if nm != "strings.Split" && nm != "strings.SplitSeq" && nm != "strings.FieldsFunc" {
+				continue
+			}
+			vv := identObj(info, call.Args[0])
+			node := g.NodeOf(call)
+			if vv == nil || node == nil {
+				continue
+			}
+			wrong := g.OnlyViaEdge(node, func(e *Edge) bool {
+				at, ok := edgeAtom(info, e)
+				if !ok || at.Kind != "cmp" || at.Op != token.EQL || identObj(info, at.X) != vv {
+					return false
+				}
+				s, isS := constString(info, at.Y)
+				return isS && s == ""
+			})
+			construct := "the offered version list is parsed when it is present"
+			if wrong {
+				c.R.Violate("R-NEG", p.Pos(call), f.Name, construct, "the list of versions the host offers is split only on the edge on which the variable is empty: a host that sends a list is treated as if it had sent none and is offered the plugin's lowest version", nil)
+			} else {
+				c.R.Hold("R-NEG", p.Pos(call), f.Name, construct, "the split is not confined to the empty-value edge", true)
+			}
+		}
+	case "serveexit":
+		// Serve's deferred exit: os.Exit(exitCode) happens outside test mode
+		f := p.Fn("Serve")
+		if f == nil {
+			return
+		}
+		testF := p.FieldObj(modPath, "ServeConfig", "Test")
+		for _, lf := range p.Funcs {
+			if lf.Lit == nil || lf.Parent != f {
+				continue
+			}
+			info := lf.Pkg.TypesInfo
+			g := p.Graph(lf)
+			for _, call := range lf.Calls() {
+				if p.CalleeName(lf, call) != "os.Exit" {
+					continue
+				}
+				node := g.NodeOf(call)
+				if node == nil {
+					continue
+				}
+				wrong := g.OnlyViaEdge(node, func(e *Edge) bool {
+					at, ok := edgeAtom(info, e)
+					return ok && at.Kind == "nil" && at.Op == token.NEQ && SelField(info, at.X) == testF
+				})
+				construct := "the exit status is delivered outside test mode"
+				if wrong {
+					c.R.Violate("R-GATE/cookie", p.Pos(call), lf.Name, construct, "os.Exit(exitCode) is reachable only in test mode: a real plugin binary started without the cookie prints its message and then returns from Serve to the plugin's main (exit status 0, and whatever main does next)", nil)
+				} else {
+					c.R.Hold("R-GATE/cookie", p.Pos(call), lf.Name, construct, "the deferred os.Exit is not confined to the test-mode edge", true)
+				}
+			}
+		}
+	case "servemux":
+		f := p.Fn("ServeMux")
+		if f == nil {
+			return
+		}
+		info := f.Pkg.TypesInfo
+		g := p.Graph(f)
+		// the first os.Exit: on the edge len(os.Args) != 2
+		for _, m := range g.Nodes {
+			for _, e := range m.Succs {
+				at, ok := edgeAtom(info, e)
+				if !ok || at.Kind != "len" || at.K != 2 {
+					continue
+				}
+				if se, isSel := ast.Unparen(at.X).(*ast.SelectorExpr); !isSel || se.Sel.Name != "Args" {
+					continue
+				}
+				if at.Op != token.EQL {
+					continue
+				}
+				// on the == 2 edge no os.Exit may be reached before the plugin name is looked up
+				seen := g.Reach([]*Node{e.To}, func(x *Node) bool {
+					if x.Ast == nil {
+						return false
+					}
+					if as, isAs := x.Ast.(*ast.AssignStmt); isAs && len(as.Rhs) == 1 {
+						if _, isIx := ast.Unparen(as.Rhs[0]).(*ast.IndexExpr); isIx {
+							return true
+						}
+					}
+					return false
+				}, nil)
+				bad := false
+				for x := range seen {
+					if x.Ast == nil {
+						continue
+					}
+					for _, call := range callsIn(x.Ast) {
+						if p.CalleeName(f, call) == "os.Exit" {
+							bad = true
+						}
+					}
+				}
+				construct := "a proper invocation (one argument) is not refused"
+				if bad {
+					c.R.Violate("R-GATE/cookie", p.Pos(f.Node()), f.Name, construct, "with exactly one argument ServeMux exits with the usage error, and with any other number it goes on to index os.Args[1]: every multiplexed plugin binary refuses to start (or panics)", nil)
+				} else {
+					c.R.Hold("R-GATE/cookie", p.Pos(f.Node()), f.Name, construct, "no os.Exit is reachable from the len(os.Args) == 2 edge before the lookup", true)
+				}
+			}
+		}
+	}
+}
+
+func polarity(which string) func(*Ctx) { return func(c *Ctx) { rulePolarity(c, which) } }
